@@ -47,3 +47,50 @@ pub fn check_rule_fn(p: Prof, r: RuleFn, s: &str, expected: &str, idem: bool, st
 pub fn chars_of(v: &[u32]) -> Vec<char> {
     v.iter().map(|c| char::from_u32(*c).unwrap()).collect()
 }
+
+/// Every canonically decomposable character of UnicodeData 16.0 as a family of strings: its
+/// full and its direct decomposition and the character itself - alone, followed by its own base
+/// character, preceded by it, and between two ASCII letters. (A base of a right-to-left script
+/// thereby gets a right-to-left neighbour: normalisation and the later rules meet.)
+pub fn decomposition_family(env: &crate::env::Env) -> Vec<String> {
+    let mut out: Vec<String> = decomposition_groups(env).into_iter().flatten().collect();
+    out.sort();
+    out.dedup();
+    out
+}
+
+/// the same strings grouped: each group holds canonically equivalent spellings (full
+/// decomposition, direct decomposition, the character itself) in one context
+pub fn decomposition_groups(env: &crate::env::Env) -> Vec<Vec<String>> {
+    fn decompose(env: &crate::env::Env, cp: u32, out: &mut Vec<u32>) {
+        match env.ud16.get(cp) {
+            Some(e) if e.dtag.is_empty() && !e.dmap.is_empty() && e.start == e.end => {
+                for d in &e.dmap {
+                    decompose(env, *d, out);
+                }
+            }
+            _ => out.push(cp),
+        }
+    }
+    let mut out: Vec<Vec<String>> = Vec::new();
+    for e in env.ud16.entries.iter().filter(|e| e.start == e.end && e.dtag.is_empty() && !e.dmap.is_empty()) {
+        let mut full = Vec::new();
+        decompose(env, e.start, &mut full);
+        let base = full[0];
+        let seqs = [full.clone(), e.dmap.clone(), vec![e.start]];
+        for (pre, post) in [(vec![], vec![]), (vec![], vec![base]), (vec![base], vec![]), (vec![0x61u32], vec![0x62u32])] {
+            let mut g: Vec<String> = seqs
+                .iter()
+                .map(|seq| {
+                    let mut v = pre.clone();
+                    v.extend_from_slice(seq);
+                    v.extend_from_slice(&post);
+                    crate::subject::from_cps(&v)
+                })
+                .collect();
+            g.dedup();
+            out.push(g);
+        }
+    }
+    out
+}
